@@ -1,4 +1,5 @@
 import Chewing.Proofs.TrieBufSorted
+import Chewing.Proofs.TrieBufSettle
 import Chewing.Proofs.SqliteDict
 /-!
 # C09 — Mutable dictionaries behave as a map under any update history
@@ -213,6 +214,76 @@ theorem layered_deterministic (l1 l2 : List Dict) (k : List Nat) (st : Strategy)
   unfold Layered.lookupAll Layered.candidates
   rw [List.flatMap_def, List.flatMap_def, h]
 
+/-- a history applied through `Layered` is the history of forwarded calls applied to the user layer -/
+theorem layered_runUser (u : State) (ops : List Op) :
+    Layered.runUser u ops = run u (ops.filter Layered.forwarded) := by
+  induction ops generalizing u with
+  | nil => rfl
+  | cons op ops ih =>
+    show Layered.runUser (Layered.applyUser u op) ops = _
+    rw [ih]
+    unfold Layered.applyUser
+    cases hf : Layered.forwarded op with
+    | true => simp [List.filter_cons, hf, run_cons]
+    | false => simp [List.filter_cons, hf]
+
+/-- **Layered under any update history**: system layers `sys` (any dictionaries) and an in-memory user
+    layer that went through the history `ops` of `Layered::{add,update,remove}_phrase`, `flush`, `reopen`.
+    The exact lookup returns each phrase once; a phrase is returned iff a system layer returns it or it
+    is live in the user's map `Map.empty.run (forwarded ops)`; and a live user phrase is reported with
+    at least the user's frequency (the highest across layers, by `layered_union`) -/
+theorem layered_history (sys : List Dict) (ops : List Op) (hok : ∀ op ∈ ops, OpOk op) (k : Key) :
+    let m := Map.empty.run (ops.filter Layered.forwarded)
+    let r := Layered.lookupAll (sys ++ [toDict (Layered.runUser initMem ops)]) k .standard
+    (texts r).Nodup ∧
+    (∀ t, t ∈ texts r ↔ (∃ d ∈ sys, t ∈ texts (d.lookup k .standard)) ∨ ∃ v, m (k, t) = some v) ∧
+    (∀ t v, m (k, t) = some v → ∃ p ∈ r, p.text = t ∧ v.1 ≤ p.freq) := by
+  intro m r
+  have hok' : ∀ op ∈ ops.filter Layered.forwarded, OpOk op := fun op ho => hok op (List.mem_filter.mp ho).1
+  obtain ⟨habs, hl, _⟩ := mem_answers (ops.filter Layered.forwarded) hok'
+  have hu : Layered.runUser initMem ops = run initMem (ops.filter Layered.forwarded) := layered_runUser _ _
+  obtain ⟨h1, h2, h3, _⟩ := layered_union (sys ++ [toDict (Layered.runUser initMem ops)]) k .standard
+  have hlk : IsLookup m k (lookupAll (Layered.runUser initMem ops) k .standard) := by
+    have := hl k
+    rw [habs, ← hu] at this; exact this
+  -- membership in the user layer's answer = liveness in the map
+  have huser : ∀ t, t ∈ texts (lookupAll (Layered.runUser initMem ops) k .standard) ↔ ∃ v, m (k, t) = some v := by
+    intro t
+    constructor
+    · intro ht
+      obtain ⟨p, hp, rfl⟩ := mem_texts.mp ht
+      exact ⟨_, hlk.2.1 p hp⟩
+    · rintro ⟨v, hv⟩
+      obtain ⟨p, hp, e⟩ := hlk.2.2 t v hv
+      exact mem_texts.mpr ⟨p, hp, e⟩
+  refine ⟨h1, ?_, ?_⟩
+  · intro t
+    rw [h2 t]
+    constructor
+    · rintro ⟨d, hd, ht⟩
+      rcases List.mem_append.mp hd with hd | hd
+      · exact Or.inl ⟨d, hd, ht⟩
+      · simp only [List.mem_cons, List.not_mem_nil, or_false] at hd
+        rw [hd] at ht
+        exact Or.inr ((huser t).mp ht)
+    · rintro (⟨d, hd, ht⟩ | hv)
+      · exact ⟨d, List.mem_append.mpr (Or.inl hd), ht⟩
+      · exact ⟨toDict (Layered.runUser initMem ops), List.mem_append.mpr (Or.inr (by simp)), (huser t).mpr hv⟩
+  · intro t v hv
+    obtain ⟨q, hq, eq⟩ := hlk.2.2 t v hv
+    have hqv := hlk.2.1 q hq
+    rw [eq, hv] at hqv
+    have hfreq : q.freq = v.1 := by
+      have := congrArg Prod.fst (Option.some.inj hqv)
+      simpa [valOf] using this.symm
+    have hdm : toDict (Layered.runUser initMem ops) ∈ sys ++ [toDict (Layered.runUser initMem ops)] :=
+      List.mem_append.mpr (Or.inr (by simp))
+    have ht : t ∈ texts r := (h2 t).mpr ⟨_, hdm, mem_texts.mpr ⟨q, hq, eq⟩⟩
+    obtain ⟨p, hp, ep⟩ := mem_texts.mp ht
+    refine ⟨p, hp, ep, ?_⟩
+    have := (h3 p hp).2 _ hdm q hq (by rw [eq, ep])
+    rw [hfreq] at this; exact this
+
 /-! ## 5. The first n results are the first n of the full result -/
 
 theorem first_n_is_prefix_triebuf (s : State) (k : Key) (n : Nat) (st : Strategy) :
@@ -232,6 +303,35 @@ theorem first_n_is_prefix_trie (t : List Leaf) (q : Key) (n : Nat) (st : Strateg
 theorem lookup_all_is_full (s : State) (k : Key) (st : Strategy) (n : Nat) (h : (lookupAll s k st).length ≤ n) :
     lookupFirstN s k n st = lookupAll s k st := by
   rw [first_n_is_prefix_triebuf]; exact List.take_of_length_le h
+
+/-- the provided trait method `lookup_first_phrase` returns the head of the full result — for every
+    implementation whose `lookup_first_n_phrases` is a prefix of its full result (all four above) -/
+theorem first_phrase_is_head (lookupN : Nat → List Phrase) (full : List Phrase) (h : ∀ n, lookupN n = full.take n) :
+    firstPhraseOf lookupN = full.head? := by
+  unfold firstPhraseOf; rw [h 1]; cases full <;> rfl
+
+/-- the provided trait method `lookup_all_phrases` (n = `usize::MAX`) returns the full result; a `Vec`
+    never holds more than `usize::MAX` elements -/
+theorem all_phrases_is_full (lookupN : Nat → List Phrase) (full : List Phrase) (h : ∀ n, lookupN n = full.take n)
+    (hl : full.length ≤ usizeMax) : allPhrasesOf lookupN = full := by
+  unfold allPhrasesOf; rw [h usizeMax]; exact List.take_of_length_le hl
+
+/-- … instantiated: `TrieBuf`, `Layered`, `Trie`, SQLite -/
+theorem first_phrase_triebuf (s : State) (k : Key) (st : Strategy) :
+    firstPhraseOf (fun n => lookupFirstN s k n st) = (lookupAll s k st).head? :=
+  first_phrase_is_head _ _ (fun n => first_n_is_prefix_triebuf s k n st)
+
+theorem first_phrase_layered (layers : List Dict) (k : List Nat) (st : Strategy) :
+    firstPhraseOf (fun n => Layered.lookupFirstN layers k n st) = (Layered.lookupAll layers k st).head? :=
+  first_phrase_is_head _ _ (fun n => first_n_is_prefix_layered layers k n st)
+
+theorem first_phrase_trie (t : List Leaf) (q : Key) (st : Strategy) :
+    firstPhraseOf (fun n => Trie.lookupFirstN t q n st) = (Trie.lookupAll t q st).head? :=
+  first_phrase_is_head _ _ (fun n => first_n_is_prefix_trie t q n st)
+
+theorem first_phrase_sqlite (s : SqliteDict.State) (k : Key) (st : Strategy) :
+    firstPhraseOf (fun n => SqliteDict.lookupFirstN s k n st) = (SqliteDict.lookupAll s k).head? :=
+  first_phrase_is_head _ _ (fun _ => rfl)
 
 /-! ## 6. The full statement, its refutation on the current tree, and the partial theorem -/
 
@@ -320,6 +420,65 @@ theorem triebuf_refines_partial (init : State) (hi : init = initMem ∨ init = i
   have h := triebuf_refines init hi ops hok
   exact ⟨h.2, fun k hn => lookup_agrees h.1 k hn, fun hn => entries_agrees h.1 hn,
     fun q hq hc hn => fuzzy_agrees h.1 q hq hc hn⟩
+
+/-! ### 6a. The snapshot-adoption path: after `flush` + `reopen` every answer is exact
+
+The two known-finding classes only exist *between* a modification of a file-backed dictionary and the
+adoption of the next snapshot.  `Settled` = nothing pending, no tombstone. -/
+
+/-- a settled state answers every query — exact lookup, enumeration, prefix lookup — as its map -/
+theorem settled_answers (s : State) (hs : Inv s) (h : Settled s) : Answers s :=
+  ⟨fun k => lookup_agrees hs k (fun _ => settled_not_shadowed h _),
+   entries_agrees hs (fun key => settled_not_shadowed h key),
+   fun q hq => fuzzy_agrees hs q hq (settled_not_fuzzyClass h q) (fun _ => settled_not_shadowed h _)⟩
+
+/-- **flush and reopen**: after *any* history on a file-backed dictionary, `reopen; flush; reopen`
+    (let a writer in flight finish, take a snapshot, adopt it) leaves the specified map unchanged and
+    from then on all answers are the map's, with no exclusion -/
+theorem adoption_answers (ops : List Op) (hok : ∀ op ∈ ops, OpOk op) :
+    let s := run initFile (ops ++ settleOps)
+    abs s = Map.empty.run ops ∧ Answers s := by
+  intro s
+  have hok' : ∀ op ∈ ops ++ settleOps, OpOk op := by
+    intro op ho
+    rcases List.mem_append.mp ho with h | h
+    · exact hok op h
+    · simp only [settleOps, List.mem_cons, List.not_mem_nil, or_false] at h
+      rcases h with rfl | rfl | rfl <;> trivial
+  have h := triebuf_refines initFile (Or.inr rfl) (ops ++ settleOps) hok'
+  have hq : Quiet (run initFile ops) := quiet_run quiet_initFile ops
+  have hf : (run initFile ops).fileBacked = true := by rw [fileBacked_run]; rfl
+  have hset : Settled s := by
+    show Settled (run initFile (ops ++ settleOps))
+    rw [TrieBuf.run_append]; exact settled_settle hq hf
+  refine ⟨?_, settled_answers s h.1 hset⟩
+  rw [h.2, Map.run_append, Map.run_idle _ settleOps (by decide)]
+
+/-- **close and open again** (`Drop`: sync, flush, join; then `TrieBuf::open`): same conclusion -/
+theorem close_open_answers (ops : List Op) (hok : ∀ op ∈ ops, OpOk op) :
+    let s := run initFile (ops ++ [.closeOpen])
+    abs s = Map.empty.run ops ∧ Answers s := by
+  intro s
+  have hok' : ∀ op ∈ ops ++ [Op.closeOpen], OpOk op := by
+    intro op ho
+    rcases List.mem_append.mp ho with h | h
+    · exact hok op h
+    · simp only [List.mem_cons, List.not_mem_nil, or_false] at h
+      rw [h]; trivial
+  have h := triebuf_refines initFile (Or.inr rfl) (ops ++ [.closeOpen]) hok'
+  have hf : (run initFile ops).fileBacked = true := by rw [fileBacked_run]; rfl
+  have hset : Settled s := by
+    show Settled (run initFile (ops ++ [.closeOpen]))
+    rw [TrieBuf.run_append]; exact settled_closeOpen hf
+  refine ⟨?_, settled_answers s h.1 hset⟩
+  rw [h.2, Map.run_append, Map.run_idle _ [.closeOpen] (by decide)]
+
+/-- the two classes are *transient*: whatever state a file-backed dictionary is in, they are left by
+    `reopen; flush; reopen` -/
+theorem classes_are_transient (s : State) (hq : Quiet s) (hf : s.fileBacked = true) :
+    (∀ key, shadowed (run s settleOps) key = false) ∧ ∀ q, fuzzyClass (run s settleOps) q = false :=
+  ⟨fun key => settled_not_shadowed (settled_settle hq hf) key,
+   fun q => settled_not_fuzzyClass (settled_settle hq hf) q⟩
 
 /-- the precondition `OpOk` is needed: a pending phrase that begins with U+10FFFF is outside the range
     `entries_iter_for` scans, so it is live (and enumerated) but never looked up -/
@@ -419,6 +578,13 @@ example : fuzzyClass (run initFile (witnessF36 ++ [.flush, .reopen])) kC = false
     lookupAll (run initFile (witnessF36 ++ [.flush, .reopen])) kC .fuzzyPartialPrefix
       = [{ text := tCe, freq := 1, lastUsed := some 2 }] := by decide
 example : ∀ op ∈ witnessF10, OpOk op := by decide
+/-- adoption: the F10 and F36 witnesses followed by `reopen; flush; reopen` are settled and answered exactly -/
+example : Settled (run initFile (witnessF10 ++ settleOps)) ∧ Settled (run initFile (witnessF36b ++ settleOps)) := by decide
+example : lookupAll (run initFile (witnessF36b ++ settleOps)) kC .fuzzyPartialPrefix = [] := by decide
+example : (run initFile witnessF10).btree ≠ [] := by decide
+/-- provided trait methods on the F11 leaf -/
+example : firstPhraseOf (fun n => Trie.lookupFirstN (Trie.build [([1], ⟨[65], 1, none⟩), ([1], ⟨[66], 1, none⟩)]) [1] n .standard)
+    = some ⟨[65], 1, none⟩ := by decide
 example : fuzzyMatch kC kC = true := by decide
 /-- F11 regression (fixed): first n of a 4-phrase leaf -/
 example : (Trie.lookupFirstN (Trie.build [([1], ⟨[65], 1, none⟩), ([1], ⟨[66], 1, none⟩), ([1], ⟨[67], 1, none⟩),
